@@ -1,6 +1,7 @@
 from __future__ import annotations
 
 import ast
+import collections
 import copy
 import itertools
 import re
@@ -156,7 +157,10 @@ def safe_callable_names(root: ast.Module) -> Collection[str]:
     """
     defined_names = {node.id for node in core.walk(root, ast.Name(ctx=ast.Store))}
     function_defs = list(core.walk(root, (ast.FunctionDef, ast.AsyncFunctionDef)))
-    safe_callables = set(constants.SAFE_CALLABLES)
+    # A name that several functions share, say a method and a function, may refer to any of them
+    name_counts = collections.Counter(node.name for node in function_defs)
+    function_defs = [node for node in function_defs if name_counts[node.name] == 1]
+    safe_callables = set(constants.SAFE_CALLABLES) - defined_names - set(name_counts)
     safe_callable_nodes = set()
     changes = True
     while changes:
